@@ -37,11 +37,13 @@ func VerifH_HardNodeStep() {
 	symx.Assume(n.node >= 0 && n.node <= nodeMax)
 	symx.Assume(n.step >= 0 && n.step <= stepMax)
 	symx.Assume(n.epoch >= 0 && n.epoch < 1<<42)
-	sec, nsec := symx.Int64("sec"), symx.Int64("nsec")
-	symx.Assume(nsec >= 0 && nsec < 1000000000)
-	symx.Assume(sec >= -(1<<33) && sec < 1<<33)
+	sec, nsec := symx.Int64("sec"), int64(symx.Uint32("nsec")&(1<<30-1)) // 30 bits hold every nanosecond count
+	symx.Assume(nsec < 1000000000)
+	symx.Assume(sec >= -(1<<33) && sec < 1<<34)
 	_HookNow = func() time.Time { return time.Unix(sec, nsec) }
-	now := time.Unix(sec, nsec).UnixNano()/MsDivNs - n.epoch
+	// the clock reading in milliseconds since the node's epoch, computed without going through
+	// int64 nanoseconds (which overflow in 2262; the 43-bit timestamp of the 8-bit layout reaches 2299)
+	now := sec*SDivMs + nsec/MsDivNs - n.epoch
 	symx.Assume(now <= timeMax) // the clock reading fits the timestamp width (beyond it the shift overflows)
 	last := verifEnc(n.time, n.node, n.step)
 	node := n.node
@@ -75,9 +77,9 @@ func VerifH_NewNodeRestart() {
 	var timeMax int64 = (1 << (63 - timeShift)) - 1
 	node, last := symx.Int64("node"), symx.Int64("last")
 	symx.Assume(last >= 0 && last>>timeShift < timeMax)
-	sec, nsec := symx.Int64("sec"), symx.Int64("nsec")
-	symx.Assume(nsec >= 0 && nsec < 1000000000)
-	symx.Assume(sec >= -(1<<33) && sec < 1<<33)
+	sec, nsec := symx.Int64("sec"), int64(symx.Uint32("nsec")&(1<<30-1))
+	symx.Assume(nsec < 1000000000)
+	symx.Assume(sec >= -(1<<33) && sec < 1<<34)
 	_HookNow = func() time.Time { return time.Unix(sec, nsec) }
 	nd, err := NewNode(node, last)
 	if node < 0 || node > nodeMax {
@@ -88,7 +90,7 @@ func VerifH_NewNodeRestart() {
 	symx.Assert(err == nil, "in-range node accepted")
 	hn := nd.(*HardNode)
 	symx.Assert(hn.epoch == _epoch, "epoch in ms survives the time.Unix round trip")
-	now := time.Unix(sec, nsec).UnixNano()/MsDivNs - hn.epoch
+	now := sec*SDivMs + nsec/MsDivNs - hn.epoch
 	symx.Assume(now <= timeMax)
 	_, lnode, _ := IDFields(last)
 	id := nd.Generate()
